@@ -17,6 +17,34 @@ CHECKS = {
         "deterministic simulation: controlled thread scheduling (seeded claim tapes over real threads), equality with serial baseline",
         "DESIGN.md §5 C02",
     ),
+    "C03": (
+        "exploration",
+        "Seeded histories of enqueue (incl. last-wins re-enqueue) / drain / reserve / finalize calls over 1-3 interleaved transactions on both scheduler implementations through the raw-scheduler hook (H2), with adversarial sort keys (shared 30-byte prefixes, single 16-bit digit differences, equal scope/different rule), batches 0..5000 around the 1024 threshold and a stratified block of all access x access pairs; oracle = independent greedy-independent-set reference (drain order, dedupe winner, admission, no marking on rejection, no cross-talk between transactions) plus exact blocker witnesses and TickReceipt::try_from_retained_parts on the engine path. Evidence, not proof.",
+        "Trusts the harness's RefScheduler (written from scheduler-warp-core.md); rule ids are generated so that compact-id order equals rule-id byte order, as the engine guarantees.",
+        "deterministic simulation: seeded call histories and transaction interleavings, reference-model refinement, two-implementation differential",
+        "DESIGN.md §5 C03",
+    ),
+    "C04": (
+        "exploration",
+        "Multi-tick engine histories of generated programs: every committed patch is replayed on a clone of its pre-state with no rule callback, jump_to_tick must reproduce every recorded state, and patches are delivered with faults (op removed/duplicated/altered/reordered, wrong base) which must be rejected, change the root, or be harmless; plus ordered pairs of well-formed states (independent or related by chains of single semantic edits incl. portal/instance evolution) through the crate-private diff (H3): no third state. Seeded search; evidence, not proof.",
+        "Trusts the reference applier and the reachable-projection function of the harness; well-formed = buildable by the reference applier.",
+        "deterministic simulation: seeded tick histories with patch-delivery fault injection, reference-state oracle",
+        "DESIGN.md §5 C04",
+    ),
+    "C06": (
+        "exploration",
+        "Chains of single semantic edits (reachable and unreachable) over generated multi-instance states, each state rebuilt through 2-4 construction histories (canonical patches, shuffled single-op application with junk inserted/removed, same-id edge migrations): the store root, the columnar accumulator root (H4) and the accumulator-after-ops root must agree; roots and reachable projections must correspond one-to-one within the run; columnar snapshot bytes must be layout-independent and read back to the same state. Seeded search; evidence, not proof.",
+        "Trusts the harness's reachability definition (merkle-commit.md); hash collisions between distinct generated projections are treated as impossible. No fault kind applies.",
+        "deterministic simulation: seeded construction histories and edit chains, two-implementation differential + reference projection oracle",
+        "DESIGN.md §5 C06",
+    ),
+    "C20": (
+        "fault_enumeration",
+        "Seeded op histories against the real MemoryTier/DiskTier (real files on tmpfs), RetainedBlobIndex (also on a simulator-owned evicting store), FilesystemWscStore (stage/crash/reopen/commit) and the three WAL export profiles (record sets produced by a real FilesystemWalStore), with file faults between ops (flip, truncate, extend, delete, replace-by-directory, leftover temp, torn blob/envelope/marker) and every referenced blob withheld or corrupted in turn; oracle = reference map per surface checked after every op. Fault kinds are enumerated per generated artefact, positions are sampled; evidence, not proof.",
+        "Trusts the harness's RefCas/reference maps and its reading of the on-disk layouts; a BlobStore that returns wrong bytes under RetainedBlobIndex is out of scope; causal-anchor admissions cannot be generated through the public API.",
+        "deterministic simulation: seeded op histories with disk/blob-store fault injection and simulated crash between stage and commit, reference-model oracle",
+        "DESIGN.md §5 C20",
+    ),
     "C14": (
         "exploration",
         "A generated honest tick plus one violator program (omits exactly one read/write access it performs, writes another instance, emits an instance op, optionally panics) placed at seeded canonical positions, work units and workers (claim tapes); the commit must unwind with the matching violation and leave the pre-state untouched; an unflagged omitted write is a violation exactly when the guarded location's observable content changed (attribution completeness). Seeded search; evidence, not proof.",
